@@ -368,6 +368,12 @@ func (w *wWorld) buildOps(nDIDs, nOps, nClients int) {
 
 		if len(dids) < nDIDs && (len(dids) == 0 || T.Draw(3, "op.newdid") == 0) {
 			d = &did{upd: kg.New(workload.Ed25519, mark%4 == 0), rec: kg.New(workload.Ed25519, mark%5 == 0)}
+
+			// one controller may hold several DIDs under one recovery key: their recovers / deactivates reveal the same key
+			if len(dids) > 0 && T.Draw(3, "op.sharedrec") == 0 {
+				d.rec = dids[T.Draw(len(dids), "op.sharedrec.did")].rec
+				w.k.Count("probe:recovery-key-shared-between-dids")
+			}
 			spec.Type = operation.TypeCreate
 			spec.NextUpdate, spec.NextRecovery = d.upd, d.rec
 			spec.AnchorOrigin = originValue(mark)
